@@ -253,7 +253,7 @@ def wire_job(c):
                  cuts=G.cuts_for(d['data'], seg))
     elif ctx == 'robots':
         d = G.robots_classes()[cls]
-        j.update(data=d['data'], close=d['close'], fail=d['fail'], cuts=G.cuts_for(d['data'], seg))
+        j.update(data=d['data'], close=d['close'], fail=d['fail'], cuts=G.cuts_for(d['data'], seg), path=d['path'])
     elif ctx == 'ftp':
         h = dict(G.ftp_classes()[cls]['hostile'])
         do = h['do']
@@ -524,6 +524,8 @@ def trace_of(c, f, e2e=1):
     ev.append({'e': 'end', 'hang': f['hang'], 'pipe': f['pipe'], 'target': f['target'], 'others': f['others'],
                'final': f['final']})
     return {'mode': c['mode'], 'site': c['site'], 'kind': c['kind'], 'natural': 0 if c['mode'] == 'fault' else 1,
+            # classes whose right outcome is "the URL filters refuse the redirect target" (no error, row skipped)
+            'skipok': 1 if c.get('cls') in SKIP_OK else 0,
             'e2e': e2e, 'ev': ev}
 
 
@@ -537,6 +539,7 @@ def case_label(c):
     return 'doc %s/%s/%s' % (c['fmt'], '+'.join(c['toks']), c['cs'])
 
 
+SKIP_OK = ('rd_mailto', 'rd_data_url')
 FP_SITES = ('fp_connect', 'fp_reply_readline', 'fp_reply_parse', 'fp_reply_code', 'fp_login_code', 'fp_pasv_parse',
             'fp_data_connect', 'fp_data_read', 'fp_end_code', 'fp_listing_parse')
 REMOTE_KINDS = ('ServerError', 'AuthenticationError', 'FTPServerError', 'ProtocolError', 'SSLVerificationError',
